@@ -24,7 +24,7 @@ RULE = ('simulated libraries with known truth: 1-8 cells, 1-40 sites on both str
 ASSUMPTIONS = ['the simulator is the truth (cell, site, strand, UMI by construction)',
                'for hamming>0 / radius>0 only soundness is demanded (chain linkage), for hamming 0 and radius 0 exact equality of the partition']
 MIN_NONTRIVIAL = {'quick': 60, 'thorough': 2000}
-REQUIRED_MONITORS = ['class:plain_fragment', 'hook:Molecule.write_tags', 'partition:exact_compared', 'partition:soundness_checked', 'tags:molecules_checked',
+REQUIRED_MONITORS = ['history:peek_then_full_pass', 'class:plain_fragment', 'hook:Molecule.write_tags', 'partition:exact_compared', 'partition:soundness_checked', 'tags:molecules_checked',
                      'history:input_with_duplicate_bits', 'history:retagged', 'cli:records_checked', 'cap:overflow_molecules']
 SHARD_TIMEOUT = {'quick': 900, 'thorough': 5400}
 
@@ -204,8 +204,18 @@ def run_case(case):
         try:
             with pysam.AlignmentFile(bam) as f, contextlib.redirect_stdout(io.StringIO()):
                 groups, overflow_ids, invalid_ids = [], set(), set()
-                for m in MoleculeIterator(f, molecule_class=mclass, fragment_class=fclass, fragment_class_args=dict(fargs),
-                                          molecule_class_args=dict(margs), yield_invalid=True, pooling_method=pooling):
+                it_kwargs = {}
+                peek = len(gen.refs) == 1 and r.random() < 0.5
+                if peek:
+                    it_kwargs['contig'] = gen.refs[0][0]   # a region fetch restarts from the beginning on every iteration
+                mol_iter = MoleculeIterator(f, molecule_class=mclass, fragment_class=fclass, fragment_class_args=dict(fargs),
+                                            molecule_class_args=dict(margs), yield_invalid=True, pooling_method=pooling, **it_kwargs)
+                if peek:
+                    # history: look at the first molecule (as the class documentation does), then iterate the same object in full
+                    for _m in mol_iter:
+                        break
+                    acc.count('history:peek_then_full_pass')
+                for m in mol_iter:
                     ids = [F.id_from_name([x for x in frag if x is not None][0].query_name) for frag in m]
                     m.write_tags()
                     acc.count('tags:molecules_checked')
